@@ -7,6 +7,7 @@ use std::num::NonZeroU32;
 use proptest::collection::vec as pvec;
 use proptest::prelude::*;
 use proptest::sample::select;
+use serde::{Deserialize, Serialize};
 use vcore::pick_index;
 use zcash_pool_migration::denomination::DenominationPlan;
 use zcash_pool_migration::engine::{
@@ -34,7 +35,7 @@ pub fn tid(i: u32) -> MigrationTransferId {
     MigrationTransferId::new(i)
 }
 
-#[derive(Clone, Copy, Debug)]
+#[derive(Clone, Copy, Debug, Serialize, Deserialize)]
 pub enum BaseH {
     Normal(u32),
     Low(u32),
@@ -42,7 +43,7 @@ pub enum BaseH {
     NearMax(u32),
 }
 
-#[derive(Clone, Copy, Debug, PartialEq, Eq)]
+#[derive(Clone, Copy, Debug, PartialEq, Eq, Serialize, Deserialize)]
 pub enum StSel {
     Awaiting,
     Signed,
@@ -51,7 +52,7 @@ pub enum StSel {
     Mined,
 }
 
-#[derive(Clone, Copy, Debug)]
+#[derive(Clone, Copy, Debug, Serialize, Deserialize)]
 pub enum ExpSel {
     Zero,
     /// canonical rolling expiry of the scheduled height
@@ -60,7 +61,7 @@ pub enum ExpSel {
     Rel(i32),
 }
 
-#[derive(Clone, Copy, Debug)]
+#[derive(Clone, Copy, Debug, Serialize, Deserialize)]
 pub enum MarkSel {
     Spent,
     InputsInv,
@@ -68,7 +69,7 @@ pub enum MarkSel {
     Inherited,
 }
 
-#[derive(Clone, Copy, Debug)]
+#[derive(Clone, Copy, Debug, Serialize, Deserialize)]
 pub enum StatusSel {
     Planning,
     Committed,
@@ -79,7 +80,7 @@ pub enum StatusSel {
     Cancelled,
 }
 
-#[derive(Clone, Debug)]
+#[derive(Clone, Debug, Serialize, Deserialize)]
 pub struct TxGen {
     pub st: StSel,
     pub sched_off: i32,
@@ -99,7 +100,7 @@ pub struct TxGen {
     pub value_sel: u8,
 }
 
-#[derive(Clone, Copy, Debug)]
+#[derive(Clone, Copy, Debug, Serialize, Deserialize)]
 pub enum Est {
     AtScanned,
     /// chain tip + 1 + offset
@@ -107,7 +108,7 @@ pub enum Est {
     Ahead(u16),
 }
 
-#[derive(Clone, Copy, Debug)]
+#[derive(Clone, Copy, Debug, Serialize, Deserialize)]
 pub enum Bc {
     Ok,
     /// rejected by the node; observed tip = chain tip + offset
@@ -116,7 +117,7 @@ pub enum Bc {
     Lost,
 }
 
-#[derive(Clone, Copy, Debug)]
+#[derive(Clone, Copy, Debug, Serialize, Deserialize)]
 pub enum Adv {
     Small(u8),
     Medium(u16),
@@ -124,7 +125,7 @@ pub enum Adv {
     ToPoint(u32, i8),
 }
 
-#[derive(Clone, Debug)]
+#[derive(Clone, Debug, Serialize, Deserialize)]
 pub enum Event {
     /// `advance_migration`, optionally followed by executing the returned step.
     Step { est: Est, exec: bool, bc: Bc, prove_prefix: Option<u8>, fail_at: Option<u8>, supersede: bool },
@@ -146,14 +147,14 @@ pub enum Event {
 }
 
 /// One scripted answer of a contract-VIOLATING store.
-#[derive(Clone, Copy, Debug)]
+#[derive(Clone, Copy, Debug, Serialize, Deserialize)]
 pub struct ViolAns {
     pub kind: u8,
     pub as_of_off: i16,
     pub mined: Option<i16>,
 }
 
-#[derive(Clone, Debug)]
+#[derive(Clone, Debug, Serialize, Deserialize)]
 pub struct Case {
     pub base: BaseH,
     pub scan_lag: u8,
